@@ -17,7 +17,6 @@ package dmap
 import (
 	"context"
 	"errors"
-	"strings"
 	"sync"
 	"time"
 
@@ -86,10 +85,12 @@ func (f *fragment) Move(part *partitions.Partition, name string, owners []discov
 	if err != nil {
 		return err
 	}
+	// The balancer passes the bare DMap name, the "dmap." prefix of the fragment
+	// name is already removed.
 	fp := &fragmentPack{
 		PartID:  part.ID(),
 		Kind:    part.Kind(),
-		Name:    strings.TrimPrefix(name, "dmap."),
+		Name:    name,
 		Payload: payload,
 	}
 	value, err := msgpack.Marshal(fp)
